@@ -24,8 +24,9 @@ prop("C01", "other", "static sibling-agreement analysis: wire-shape regular lang
      "W6 (field flow), P2/P3 (Packed decision vs rustc layout; raw events guarded), W2 (hand-written tag tables are inverse maps), "
      "W11 (primitive values travel unmodified), W13 (k-th written component flows back into the component it came from), W16 (the element "
      "count written is len() of the whole container whose elements follow), P7 (no cached Packed decision), W14 (sequences "
-     "are written and rebuilt in container order), T4 (a capacity-checked length is rejected only above the capacity), CB (the witness "
-     "corpus still compiles). Each obligation is one impl pair / corpus definition checked over all version classes and guard "
+     "are written and rebuilt in container order), T4 (a capacity-checked length is rejected only above the capacity), W18 (hand-written "
+     "composite impls pass component data through no known value-altering library operation), X5 (no save/load function depends on "
+     "thread-wide or process-wide state through an under-keyed memo or an unbalanced counter), CB (the witness corpus still compiles). Each obligation is one impl pair / corpus definition checked over all version classes and guard "
      "assignments by NFA containment with minterm-refined tag alphabets.",
      ["nested values are compared compositionally (a nested type is a symbol checked at its own impl)",
       "equality of values (float bits, hash-set equality, Arc<str> sharing), bzip2/ring internals and CryptoWriter chunk arithmetic are not decided"],
@@ -36,7 +37,8 @@ prop("C02", "other", "static conformance check: writer wire languages vs a froze
      "hand-reviewed specification of the documented format (widths, little endian, u64 lengths, tag values, field order, discriminant = "
      "variant index in the documented width). A change applied consistently to writer and reader is reported although round trips still pass.",
      "Rules W3 (spec/wire_spec.json: 96 writers incl. header, language equality modulo expansion of nested values), W4, W5 (corpus model), "
-     "W2, W11, W13, W14, W16 (tag tables, unmodified primitives, component order, sequence order, count = container length), P3.",
+     "W2, W11, W13, W14, W16 (tag tables, unmodified primitives - arithmetic decided by bit provenance -, component order, sequence order, "
+     "count = container length), P2/P3 (raw paths).",
      ["iteration order of hash containers and byteorder's numeric encoding are trusted",
       "a byte sink idiom the classifier does not know yields 'undecided', never an alarm"],
      "conformance of the writer's shape; the byte values of primitives are byteorder's", "DESIGN.md §3 C02, Appendix A")
@@ -46,7 +48,8 @@ prop("C03", "translation_validation", "translation validation of derive output o
      "saved version k ≤ loading definition j: the reader derived from definition j, specialised to file version k, consumes exactly the "
      "language definition k's writer produces (= the timeline model), initialises retained fields from reads of their historical type, "
      "removed fields by read-and-discard, added fields by exactly the documented default and converted fields through the documented conversion.",
-     "Rules H1 (histories × version pairs), W5, W6 on the corpus; F2 (version origin) via W4.",
+     "Rules H1 (histories × version pairs), W5, W6 on the corpus; F2 (version origin) via W4; W10b (the recursion-guard levels of every library "
+     "WithSchema impl equal the frozen format: a schema stored by an older build still matches), X5.",
      ["histories outside the enumerated scripts and the values produced by user conversion/default functions are not decided"],
      "bounded by the corpus: scripts of ≤2 edits (quick) / ≤3 (thorough), all positions", "DESIGN.md §3 C03")
 
@@ -55,8 +58,11 @@ prop("C04", "translation_validation", "three-valued evaluation of the pure Packe
      "field-by-field encoding at v; (b) every raw memory event of every library and derived impl is only reachable under the Packed guard "
      "(or an adjacency guard that the layout confirms); (c) writer and reader branch on the same guard (W1 over guard assignments).",
      "Rules P2 (decision ⇒ PackedOK for ≈320 corpus types × versions, tuple impls folded concretely from rustc's layout constants), P3 "
-     "(raw events guarded, all impls), P7 (the decision is never cached across versions), W1/W5 over both guard values.",
-     ["nalgebra packedness is undecided", "equality of loaded values between the two paths follows from (a)+(b)+W1 and is not separately observed"],
+     "(raw events guarded, all impls; a run of fields copied raw is contiguous and each of its fields is stored as written), P7 (the decision "
+     "is never cached across versions), W11 (the field-wise path moves primitives unmodified: bit provenance), W1/W5 over both guard values. "
+     "Library Packed impls of foreign types (Cell, RefCell, Rc, Arc, Mutex, Range, Duration, atomics, Result, nalgebra Point3/Vector3/"
+     "Isometry3) are decided on wrapper witnesses: folded concretely, address comparisons of a probe value explored both ways.",
+     ["a foreign struct with two or more stored fields is never accepted as byte-identical (its field order is not the library's to assume)", "equality of loaded values between the two paths follows from (a)+(b)+W1 and is not separately observed"],
      "decision soundness relative to the compiler's own layout tables on this target", "DESIGN.md §3 C04")
 
 prop("C05", "other", "static comparison-table extraction (which access paths are compared, with which polarity) + container shape",
@@ -79,8 +85,9 @@ prop("C06", "other", "static interval/taint analysis of values read from the str
      "bit count ≤ allocated storage bits, finite-domain evaluation), T6 (initialisation typestate of element-wise filled "
      "[MaybeUninit<T>; N] buffers, including error clean-up inside the fill loop and counted drop guards), I3, I8 (no Err swallowed by flat_map/"
      "flatten/filter_map), T7 (units of raw pointer arithmetic), T8 (single owner of raw allocations), T9 (lower-bound guard before "
-     "stream value minus constant), P5.",
-     ["trusted lengths/offsets are ≤ isize::MAX and element sizes < 2^31", "panics inside third-party crates, stack exhaustion and OOM are not decided"],
+     "stream value minus constant), P5, P8 (derived readers fill memory from raw bytes only for types "
+     "all of whose bit patterns are valid).",
+     ["trusted lengths/offsets are ≤ isize::MAX and element sizes < 2^31", "panics inside third-party crates other than the tabulated value-panicking operations (T3), stack exhaustion and OOM are not decided"],
      "absence of the enumerated defect classes on all paths, not absence of all panics", "DESIGN.md §3 C06, Appendix C")
 
 prop("C07", "other", "static exact-read discipline (who-may-call) + result discipline + writer⊆reader containment",
@@ -109,7 +116,8 @@ prop("C11", "other", "static comparison-table extraction for Schema::layout_comp
      "Rules Q3 (40 table obligations incl. the two shortcut clauses; alternative-sensitive), N7, M7, P6 (derived schemas claim an explicit repr only when the recorded "
      "discriminants are the in-memory values), M1/M2/M4/M5 (the four schemas handed to arg_layout_compatible originate from the two "
      "sides' effective and native definitions of the same method and argument; the mask is per method), X3 (layout facts enter a schema "
-     "only through the unsafe constructor).",
+     "only through the unsafe constructor), M9 (no type but String / Vec / &str / &[T] claims a probed container layout, directly or by "
+     "returning String's / Vec's schema as its own).",
      ["behaviour under a different compiler is covered only in so far as the schema is the sole channel"],
      "conservativeness of the decision function", "DESIGN.md §3 C11")
 
@@ -117,7 +125,7 @@ prop("C12", "other", "schema constructor trees read off THIR, translated to the 
      "For every library type with a literal schema constructor tree the language its writer emits is contained in the language described "
      "by its schema; recursion guards name the type whose schema they wrap.",
      "Rules P2 and W16 (necessary on the raw path / for counts), W7 (≈90 library types), W7d (derived schemas of the corpus vs the derived writers, field-wise and raw path, per version), W10 "
-     "(20 recursion guards). Known findings: SocketAddr, Result, HashMap/IndexMap guards, BitVec/BitSet, retyped field written at an older "
+     "(20 recursion guards), W10b (guard levels as frozen). Known findings: unit variants beside data variants are declared Packed (D30),  SocketAddr, Result, HashMap/IndexMap guards, BitVec/BitSet, retyped field written at an older "
      "version, enum discriminant recorded as u8.",
      ["run-time dependent parts of a schema (Vec/String layout probes) are not decided; BitVec/BitSet are undecided (raw storage slice)"],
      "faithfulness of the schema's shape", "DESIGN.md §3 C12")
@@ -128,7 +136,8 @@ prop("C13", "other", "writer⊆reader containment for the schema node types + re
      "frozen format-0 layout = format 1 without the memory-layout annotations (W8); hand-written tag tables are inverse maps (W2); "
      "diff_schema reports differences only from comparisons of corresponding paths (Q2), compares every wire-relevant fact and takes no "
      "accepting shortcut past a comparison (Q1).",
-     "Rules W1 (schema types), W8 (spec/format0_spec.json, 12 readers), W8d (values of the format-0-absent fields at file_version 0), W15 (flag bits), W2, Q1, Q2. Known finding: Undefined vs Undefined reports a difference by design.",
+     "Rules W1 (schema types), W8 (spec/format0_spec.json, 12 readers), W8d (values of the format-0-absent fields at file_version 0), W15 (flag bits), W2, Q1 (incl. no arm "
+     "that matches different variants on the two sides), Q2, X5 (reading a schema leaves no thread-wide state behind). Known finding: Undefined vs Undefined reports a difference by design.",
      ["format 0 has no independent reference in the repository: spec/format0_spec.json was frozen from the pinned tree and reviewed by "
       "hand against the version gates (offset, size, alignment, discriminant_size, has_explicit_repr, string/vector layout byte)"],
      "shape agreement and comparison tables", "DESIGN.md §3 C13")
@@ -139,7 +148,8 @@ prop("C14", "other", "static necessary conditions in savefile's AEAD wrapper (re
      "occupies its own slot of the 12-byte nonce (K5, constant folding of the array construction); the nonce header written is the one "
      "read (W4); every copy-out of the decrypt buffer advances the offset by what it returns (K4); the load demands the end of the "
      "compressed stream so that no trailing chunk is optional (K7). The cryptographic guarantee itself is ring's.",
-     "Rules I3 (crypto module), K3, K4, K5, K7, K8 (a record is written only while unwritten plaintext remains: no optional records), K10 (every header value read is stored in the nonce state), T9, K9 (the "
+     "Rules I3 (crypto module), K3, K4, K5, K7, K8 (a record is written only while unwritten plaintext remains, in flush and in every helper that "
+     "seals what it is handed: no optional records), K10 (every header value read is stored in the nonce state), T9, K9 (the "
      "unauthenticated chunk length is used as read and rejected when out of range, never clamped), T3 (panic-site inventory incl. slice range "
      "indexing on the load path), W4.",
      ["that modification of nonce/length/ciphertext/tag is detected is ring's AES-256-GCM and is not decided here"],
@@ -151,7 +161,10 @@ prop("C15", "other", "static comparison-table extraction for the ledger comparis
      "Rules Q4 (comparison table of verify_backward_compatible), Q5 (the definition is stored at a data version at which every compared "
      "field is written), Q6, Q7 (in verify_compatiblity the file name, the recorded definition, the checked definition and the version "
      "argument are all those of the loop's version, and the loop covers 0..=latest), I7 (the result of a per-version check is not overwritten by "
-     "a later one), W15 (the Send/Sync/Unpin flag byte of a recorded future type is decoded with the masks it was encoded with).",
+     "a later one), W15 (the Send/Sync/Unpin flag byte of a recorded future type is decoded with the masks it was encoded with), Q4b (nested "
+     "interfaces - closure, trait-object and future arguments - are compared on argument count, argument schemas and return schema), Q1 "
+     "(diff_schema, which the ledger relies on for every type), N8 (generated get_definition(version) describes nested interfaces and "
+     "argument types at `version`).",
      ["file-system behaviour is not decided"],
      "completeness of the ledger comparison", "DESIGN.md §3 C15")
 
@@ -160,7 +173,8 @@ prop("C16", "other", "static lock-order / held-lock effect analysis over the res
      "process-wide caches is acyclic without self edges (L1); while a cache guard is live only negotiation messages leave the image, "
      "their callbacks and in-image handlers acquire no cache lock, and no RegularCall is issued under a lock (L2).",
      "Rules L1, L2, L3, L5 (no check-then-act across two critical sections), L4 (condition variables, if any: state changed under the waited-on mutex is followed by a notify - no lost "
-     "wake-up), X2 (AbiConnection<T> is Send/Sync only if T is).",
+     "wake-up), L6 (a parameter matched against an atomic static is matched again under the lock the cached value is taken from), N9 "
+     "(wake-ups cross the ABI boundary unconditionally), X2 (AbiConnection<T> is Send/Sync only if T is).",
      ["'same results as sequential execution' (linearizability) is not decided", "user constructors run under CreateInstance execute in the plugin image with its own statics"],
      "necessary conditions for deadlock freedom", "DESIGN.md §3 C16")
 
@@ -180,7 +194,7 @@ prop("C18", "translation_validation", "translation validation of derived writers
      "For every add/remove evolution history and k < j: the writer derived from definition j, told to write version k, emits exactly the "
      "version-k layout (later fields omitted, AbiRemoved fields filled from their value constructor) or diverges where a plain Removed "
      "field would have to be written; the Packed decision is no for every version whose wire layout differs from memory (P2).",
-     "Rules H2, W5, P2.",
+     "Rules H2, W5, P2, X5 (the schema written into a file is computed for the version being written, not memoised under the type alone).",
      ["values produced by value constructors are not decided"],
      "bounded by the corpus of histories", "DESIGN.md §3 C18")
 
@@ -192,7 +206,8 @@ prop("C09", "translation_validation", "translation validation of generated ABI t
      "Rules W9 (≈40 methods × mask assignments, with ownership events), A1, A2, A3 (ownership pairing of boxed arguments), A6 "
      "((pointer, length) pairs passed across the boundary: the length is len() of the same object), N5, N6 (generated closure/future helper "
      "interfaces carry the enclosing interface's version), A7 (a panic message pointer never outlives the payload it points into), A8 (fixed-size "
-     "message buffers hold the longest message of the method), M5 (compatibility mask is initialised per method), M6 (argument limit = mask width).",
+     "message buffers hold the longest message of the method), M5 (compatibility mask is initialised per method), M6 (argument limit = mask width), "
+     "N9 (a wake-up is forwarded on every path: AbiWaker, the generated poll closure, the callback handed to AbiWaker::new).",
      ["equality of observed values, drop counts at run time and post-panic usability are not decided"],
      "mirror-image property of generated code on the corpus; the runtime effect is not observed", "DESIGN.md §3 C09")
 
